@@ -58,7 +58,59 @@ type mpscResult struct {
 
 func runMPSCScenario(sc mpscScenario) mpscResult {
 	q := NewMPSC[mpscItem](sc.InitCap, sc.MaxCap)
-	res := mpscResult{T: "mpsc", Sc: sc, Cap: q.capacity(), Pushes: []mpscPush{}, Out: []mpscItem{}}
+	// the bound the queue documents: the requested maximum rounded up to a power of two (computed here, not asked of the queue)
+	capWanted := 1
+	for capWanted < int(sc.MaxCap) {
+		capWanted *= 2
+	}
+	res := mpscResult{T: "mpsc", Sc: sc, Cap: capWanted, Pushes: []mpscPush{}, Out: []mpscItem{}}
+	if sc.Policy == "bursts" {
+		// one goroutine: seeded bursts of offers and polls (no race needed: chunk switches with the consumer index > 0, then a
+		// burst that fills the queue to its bound); every refusal is logged with the exact size
+		res.Gated = 1
+		res.Diag = verifkit.Guard(func() {
+			rnd := uint64(sc.Seed)*2862933555777941757 + 3037000493
+			next := func(n int) int {
+				rnd = rnd*6364136223846793005 + 1442695040888963407
+				return int((rnd >> 33) % uint64(n))
+			}
+			n := 0
+			for round := 0; round < 6+sc.NPush; round++ {
+				burst := 1 + next(2*capWanted+2)
+				if round%3 == 2 {
+					burst = 2*capWanted + 3 // fill to the bound and beyond
+				}
+				for b := 0; b < burst; b++ {
+					n++
+					rec := mpscPush{P: 1, N: n}
+					if q.TryPush(&mpscItem{1, n}) {
+						rec.Ok = 1
+					} else {
+						rec.Size = int64(q.Size())
+					}
+					res.Pushes = append(res.Pushes, rec)
+					if sz := int64(q.Size()); sz > res.MaxSz {
+						res.MaxSz = sz
+					}
+				}
+				polls := 1 + next(2*capWanted+2)
+				if round%3 == 1 {
+					polls = 1 + next(3) // leave most of it: the next chunk switch happens with the consumer behind
+				}
+				for b := 0; b < polls; b++ {
+					if it := q.TryPop(); it != nil {
+						res.Out = append(res.Out, *it)
+					}
+				}
+			}
+			for it := q.TryPop(); it != nil; it = q.TryPop() {
+				res.Out = append(res.Out, *it)
+			}
+		})
+		res.Left = int64(q.Size())
+		res.Sc.Script = []verifkit.Step{}
+		return res
+	}
 	var mu sync.Mutex
 	var left atomic.Int64
 	var attempted atomic.Int64
